@@ -135,6 +135,11 @@ first_missed.update({
     "C17-r7m2": "matrix-shaped designs were always C-ordered",
     "C18-r7m2": "a slice sensitivity was always assigned with the type of the signal, never with a narrower one (real on complex, float32 on float64)",
 })
+first_missed.update({
+    "C04-r8m1": "every seeding used freshly created arrays: one buffer object never carried two different seeds",
+    "C06-r8m2": "sparse matrices were rebuilt from dense values for every update, so the sparsity structure always followed the couplings",
+    "C08-r8m1": "no mesh came near 65535 dofs (the dense reference of the option product does not scale; a sparse-judged part was added)",
+})
 print("| id | defect (needs) | caught by (quick tier) | first evaluation |")
 print("|---|---|---|---|")
 for f in sorted(glob.glob(os.path.join(HERE, "seeded", "*", "meta.json"))):
